@@ -203,27 +203,28 @@ def run_c05(pid, spec, tier, seed, replay=None):
 
 
 HANG = "fatal error: all goroutines are asleep - deadlock!"
+MC_DEFAULT = {"quick": ["MC_one"], "thorough": ["MC_one", "MC_err_cancel", "MC_down_cancel", "MC_err_close", "MC_err_shutdown", "MC_two_stepped"]}
 
 PROPS = {
-    "C01": {"level": "model_checking",
+    "C01": {"level": "model_checking", "model_replay": (60, 600), "mc": {"quick": ["MC_one", "MC_two_stepped"], "thorough": ["MC_one", "MC_two_stepped", "MC_err_cancel", "MC_down_cancel", "MCT_one_close"]},
             "quick": lambda s: gen.fam_data(s, 64) + gen.fam_life(s, 4, policies=("lazy", "slowsrv", "slowcli"), causes=("close", "ctxcancel"), fcs=("fc",))
                                + gen.fam_cancel(s, 4, policies=("lazy", "slowsrv", "slowcli"), fcs=("fc",))
                                + gen.fam_gates(s, 3, gates=["cli.alloc", "cli.new.sent", "car.sent.c2s.new", "car.sent.c2s.msg", "car.sent.s2c.msg", "srv.watch.fired"], faults=("none", "cancel@park", "cancel")),
             "thorough": lambda s: gen.fam_data(s, 600, big=True) + gen.fam_life(s, 0) + gen.fam_cancel(s, 0) + gen.fam_gates(s, 0)},
-    "C13": {"level": "model_checking",
+    "C13": {"level": "model_checking", "model_replay": (40, 400), "mc": {"quick": ["MC_one", "MC_down_cancel"], "thorough": ["MC_one", "MC_down_cancel", "MC_err_cancel", "MC_two_stepped", "MCT_two_stepped_all"]},
             "quick": lambda s: gen.fam_data(s, 48) + gen.fam_cancel(s, 4, policies=("eager", "slowcli"), fcs=("fc",)) + gen.fam_indep(s, 4, policies=("random",))
                                + gen.fam_free(s, 48) + [x for x in gen.fam_hostile_srv(s) if "-off-" in x["name"] or "-legacy-" in x["name"]][:60] + gen.fam_neg(s)[:40],
             "thorough": lambda s: gen.fam_data(s, 400, big=True) + gen.fam_cancel(s, 0) + gen.fam_indep(s, 0) + gen.fam_life(s, 12) + gen.fam_gates(s, 4)},
-    "C06": {"level": "model_checking",
+    "C06": {"level": "model_checking", "model_replay": (30, 300),
             "quick": lambda s: gen.fam_data(s, 64),
             "thorough": lambda s: gen.fam_data(s, 600, big=True)},
-    "C04": {"level": "model_checking", "also": ["C16_NoSuccessOnWrongCount"], "hang": True,
+    "C04": {"level": "model_checking", "model_replay": (40, 400), "mc": {"quick": ["MC_err_close"], "thorough": ["MC_err_close", "MCT_one_close", "MCT_err_all2"]}, "also": ["C16_NoSuccessOnWrongCount"], "hang": True,
             "quick": lambda s: gen.fam_life(s, 5),
             "thorough": lambda s: gen.fam_life(s, 0) + gen.fam_gates(s, 0, faults=("close",))},
-    "C07": {"level": "model_checking", "also": ["C16_NoSuccessOnWrongCount"], "hang": True,
+    "C07": {"level": "model_checking", "model_replay": (40, 400), "mc": {"quick": ["MC_err_cancel"], "thorough": ["MC_err_cancel", "MC_down_cancel", "MCT_one_cancel"]}, "also": ["C16_NoSuccessOnWrongCount"], "hang": True,
             "quick": lambda s: gen.fam_cancel(s, 5) + gen.fam_gates(s, 4, gates=["cli.alloc", "cli.watch.fired", "cli.cancel.finished", "cli.cancel.emit", "srv.finish.cancelled", "srv.close.emit", "car.sent.c2s.cancel"], faults=("cancel@park", "cancel")),
             "thorough": lambda s: gen.fam_cancel(s, 0) + gen.fam_gates(s, 0, faults=("cancel",))},
-    "C03": {"level": "model_checking", "hang": True,
+    "C03": {"level": "model_checking", "hang": True, "mc": {"quick": ["MC_two_stepped"], "thorough": ["MC_two_stepped", "MCT_two_stepped_all"]},
             "quick": lambda s: gen.fam_indep(s, 8) + gen.fam_shutdown(s, 3, policies=("eager",))
                                + gen.fam_gates(s, 4, gates=["cli.alloc", "car.sent.c2s.new", "srv.reject.emit"], faults=("cancel@park", "cancel")),
             "thorough": lambda s: sum((gen.fam_indep(s + i, 0) for i in range(8)), []) + gen.fam_shutdown(s, 0) + gen.fam_gates(s, 0, faults=("cancel",))},
@@ -286,14 +287,45 @@ def run(pid, spec, tier, seed, replay=None):
         scenarios = [sc] * 3
     else:
         scenarios = spec[tier](seed)
+    nreplay = 0
+    if not replay and spec.get("model_replay"):
+        # spec -> implementation: behaviours of the detailed model generated by TLC, replayed on the real code
+        from . import modelgen
+        ms = modelgen.fam_model(seed, spec["model_replay"][0 if tier == "quick" else 1])
+        nreplay = len(ms)
+        scenarios = scenarios + ms
     if spec.get("snap"):
         for s in scenarios:
             s["cfg"] = dict(s["cfg"], snap=True)
     d, traces, crashes = orch.execute(binary, scenarios, "%s-%s" % (pid, tier))
     viols, lines, states = orch.validate(traces)
     n, distinct = orch.count_traces(traces)
+    mc_states = mc_trans = 0
+    mc_runs = {}
+    if not replay:
+        # the design: TLC checks the same formulas on every reachable state of the detailed model (spec/Tunnel.tla)
+        for cfgname in spec.get("mc", {}).get(tier, MC_DEFAULT[tier]):
+            r = orch.tlc(os.path.join(orch.SPEC, "MC_Tunnel.tla"), os.path.join(orch.SPEC, cfgname + ".cfg"), workers=12, heap="10g", timeout=3000)
+            if "No error has been found" in r.stdout:
+                st = orch.tlc_stats(r.stdout)
+                mc_states += st[0]
+                mc_trans += st[1]
+                mc_runs[cfgname] = {"distinct_states": st[0], "states_generated": st[1], "result": "all invariants hold"}
+            else:
+                import re
+                m = re.search(r"Invariant (\w+) is violated", r.stdout)
+                mc_runs[cfgname] = {"result": "MODEL: " + (m.group(0) if m else "did not finish"), "note": "a counterexample of the model is not a verdict about the code"}
+                print("NOTE model-instance=%s %s" % (cfgname, mc_runs[cfgname]["result"]))
+    skips = 0
+    for tf in traces:
+        try:
+            skips += sum(1 for ln in open(tf) if ln.startswith('{"ev":"skip"'))
+        except OSError:
+            pass
     cov = {
-        "states": states, "transitions": states,
+        "states": states + mc_states, "transitions": states + mc_trans,
+        "trace_validation_states": states, "model_instances": mc_runs,
+        "model_behaviours_replayed_on_impl": nreplay, "driver_steps_not_executable": skips,
         "traces_validated_against_impl": n,
         "evaluations": n, "distinct_nontrivial": distinct,
         "rule": "one evaluation = one scenario executed against the real library and validated step by step against "
